@@ -725,9 +725,14 @@ func TestVerif_C15_ConfigRegistry(t *testing.T) {
 				pre := append(append([]vC15Op{}, sh.Prep...), cop)
 				// (a) the other node loads (twice), then every follow-up in turn, then loads again
 				a := append(append([]vC15Op{}, pre...), vC15Op{N: 2, T: "L"}, vC15Op{N: 2, T: "L"})
-				for _, f := range plan.Followups {
-					f.N = 2
-					a = append(a, f)
+				// operations on the other database first (they must not be able to use what the interrupted change holds)
+				for pass := 0; pass < 2; pass++ {
+					for _, f := range plan.Followups {
+						if (f.DB != op.DB) == (pass == 0) {
+							f.N = 2
+							a = append(a, f)
+						}
+					}
 				}
 				a = append(a, vC15Op{N: 2, T: "L"})
 				id := fmt.Sprintf("crash/%s/%s@%d/heal-then-all", sh.Name, op.String(), k)
